@@ -739,6 +739,7 @@ impl Engine for C17 {
             }
             exec::Outcome::Stuck(polls) => format!("HANG (pending after {} polls, no wake-up requested)", polls),
             exec::Outcome::PollCap => "POLL-CAP".to_string(),
+            exec::Outcome::Cancelled => "CANCELLED".to_string(),
         };
         if std::env::var("SIM_DEBUG").is_ok() {
             eprintln!("{}\nmain {:?}\ncoros {:?}\nthunks {:?}\nexpected {:?}\nactual   {:?}\nend {}", src, spec.scripts[0], &spec.scripts[1..], spec.thunks, expected, actual, end);
